@@ -13,14 +13,15 @@ from __future__ import annotations
 import itertools
 import time
 
-from .. import core, seqref, vt
+from .. import core, seq_ilv, seqref, vt
 
 PROPERTY = "C10"
 LEVEL = "exploration"
 META = {
     "engine": "vtx",
     "technique": "bounded-exhaustive enumeration of (operator form, list of cold source timelines, count) on virtual time against a "
-    "sequential-composition reference simulator (output instants and per-source subscription intervals)",
+    "sequential-composition reference simulator (output instants and per-source subscription intervals); plus stateless exhaustive "
+    "exploration of thread interleavings (bounded preemptions) of the source hand-over on the NewThreadScheduler",
     "text": "concat (function, operator, +, +=), concat_with_iterable (list/generator), for_in, start_with, repeat, retry, catch (function, "
     "iterable, operator with observable and with handler), on_error_resume_next (function, operator, factories), while_do and do_while "
     "are run on every list of <=L logged cold sources from a structural timeline set and every count within the bound; the recorded "
@@ -310,11 +311,14 @@ def run(ctx: core.Ctx):
         "harness cold sources are conforming and honour disposal",
         "operator objects and source iterables are built fresh per execution (re-use is C04/C44)",
     ]
+    seq_ilv.run_part(ctx)  # E3: hand-over on a scheduler that runs work on other threads
     part = ctx.sharded(shard)
     ctx.cov["operators_covered"] = sorted(k[3:] for k in part.counters if k.startswith("op:"))
 
 
 def replay(case):
+    if isinstance(case, dict) and str(case.get("harness", "")).startswith("seq-newthread|"):
+        return seq_ilv.replay(case)
     case = dict(case)
     case["sources"] = {n: [k, [tuple(x) for x in tl]] for n, (k, tl) in case["sources"].items()}
     problems, ob, stats = run_case(case)
